@@ -37,6 +37,8 @@ VecCases(u) == {[kind |-> "vec", date |-> FALSE, items |-> <<i>>] : i \in Items}
 (* option groups: concrete tokens + their documented meaning *)
 D0 == DsOfSmall([inp |-> <<C03In1, C03In2>>, clim |-> NoClimGen, opt |-> NoOptions])
 DC == DsOfSmall([inp |-> <<C03In1, C03In2>>, clim |-> C03Clim, opt |-> NoOptions])
+\* the climatology used with -C has small values (with zeros): quotients by large values would leave TLC's 32-bit rationals
+DCdiv == DsOfSmall([inp |-> <<C03In1, C03In2>>, clim |-> [C03Clim EXCEPT !.mode = "small", !.type = "divide"], opt |-> NoOptions])
 Opt(name, v) == [k |-> "opt", name |-> name, v |-> v]
 G(toks, sem) == [toks |-> toks, sem |-> sem]
 OkGroups ==
@@ -53,7 +55,7 @@ OkGroups ==
     G(<<"-latrange", "60,80">>, Opt("latrange", <<60, 80>>)), G(<<"-lonrange", "15,200">>, Opt("lonrange", <<15, 200>>)),
     G(<<"-elevrange", "0,100">>, Opt("elevrange", <<0, 100>>)), G(<<"-obsrange", "1,4">>, Opt("obsrange", <<R(1), R(4)>>)),
     G(<<"-leg", "Aa,B_b">>, [k |-> "leg", v |-> <<"Aa", "B b">>]), G(<<"-acc">>, [k |-> "acc", v |-> TRUE]),
-    G(<<"-c", "CLIM">>, [k |-> "clim", v |-> "subtract"]) }
+    G(<<"-c", "CLIM">>, [k |-> "clim", v |-> "subtract"]), G(<<"-C", "CLIM2">>, [k |-> "clim", v |-> "divide"]) }
 \* groups that must be rejected with an error message and a non-zero exit status
 BadGroups ==
   { G(<<"-zzz", "1">>, [k |-> "bad", v |-> "unknown flag"]), G(<<"-x", "foo">>, [k |-> "bad", v |-> "unknown axis"]),
@@ -69,7 +71,7 @@ BadGroups ==
 Dangling == G(<<"-m">>, [k |-> "bad", v |-> "flag without its value"])
 
 FlagOf(g) == g.toks[1]
-Distinct(S) == \A a, b \in S : a # b => FlagOf(a) # FlagOf(b)           \* no flag twice (documented grammar: option subsets)
+Distinct(S) == \A a, b \in S : a # b => (FlagOf(a) # FlagOf(b) /\ {FlagOf(a), FlagOf(b)} # {"-c", "-C"})     \* no flag twice (documented grammar: option subsets); one climatology
 Compatible(S) == Distinct(S) /\ ~({"-lx", "-l"} \subseteq {FlagOf(g) : g \in S} /\ FALSE)
 RECURSIVE Subsets(_, _)
 Subsets(S, n) == IF n = 0 THEN {{}} ELSE Subsets(S, n - 1) \cup {T \cup {x} : T \in Subsets(S, n - 1), x \in S}
@@ -98,7 +100,7 @@ Expected(S, dangling) ==
            axis == SemOf(S, "axis", "leadtime")
            agg == SemOf(S, "agg", "mean")
            cfg == [agg |-> agg, q |-> Zero, bt |-> SemOf(S, "b", "above"), t |-> SemOf(S, "r", R(2)), u |-> SemOf(S, "r", R(2))]
-           D == IF \E g \in S : g.sem.k = "clim" THEN DC ELSE D0
+           D == IF \E g \in S : g.sem.k = "clim" THEN (IF SemOf(S, "clim", "subtract") = "divide" THEN DCdiv ELSE DC) ELSE D0
            OO == OptionsOf(S)
            legend == SemOf(S, "leg", <<"FILE1", "FILE2">>)
        IN  IF EmptySelection(D, OO) THEN [status |-> "empty", table |-> <<>>, legend |-> legend, axis |-> axis, why |-> "selection leaves nothing"]
@@ -138,7 +140,7 @@ Emit ==
   ELSE LET vs == SetToSeq(VariantsOf(c.groups, c.dangling)) IN
        PrintT(ToJson([kind |-> "cli", groups |-> [k \in DOMAIN SetToSeq(c.groups) |-> SetToSeq(c.groups)[k].toks], dangling |-> c.dangling,
                       expected |-> Expected(c.groups, c.dangling), variants |-> vs,
-                      files |-> [j \in DOMAIN D0.inputs |-> InputJson(D0.inputs[j])], clim |-> InputJson(DC.clim)]))
+                      files |-> [j \in DOMAIN D0.inputs |-> InputJson(D0.inputs[j])], clim |-> InputJson(DC.clim), clim2 |-> InputJson(DCdiv.clim)]))
 Init == c \in (IF Kind = "vec" THEN VecCases(0) ELSE CliCases(0)) /\ phase = "case"
 Evaluate == phase = "case" /\ phase' = "emitted" /\ c' = c /\ Emit
 Next == Evaluate
